@@ -649,9 +649,14 @@ func (w *World) pump(a *actor) {
 //
 //go:norace
 func (w *World) FireTrigger(name string) {
+	// at most two waiting operations per occurrence, in registration order: later occurrences get the rest
 	fs := w.triggers[name]
-	delete(w.triggers, name)
-	for _, f := range fs {
+	if len(fs) == 0 {
+		return
+	}
+	n := min(len(fs), 2)
+	w.triggers[name] = fs[n:]
+	for _, f := range fs[:n] {
 		f()
 	}
 }
